@@ -45,12 +45,33 @@ theorem sgn_eq_iff (a b : α) : sgn a = sgn b ↔ SignType.sign a = SignType.sig
     | skip
   all_goals simp [sgn_of_neg, sgn_of_pos, sgn_zero, sign_neg, sign_pos, *]
 
-theorem sameSign_iff (dl dr : α) : sameSign dl dr = true ↔ 0 < dl * dr := by simp [sameSign]
+/-- Bridging lemma: the sign-comparing mask of the code is the product test of the textbook
+(over an ordered field; in binary64 the product can underflow, the signs cannot). -/
+theorem sameSign_iff (dl dr : α) : sameSign dl dr = true ↔ 0 < dl * dr := by
+  unfold sameSign
+  rw [decide_eq_true_iff]
+  rcases lt_trichotomy dl 0 with hl | hl | hl <;> rcases lt_trichotomy dr 0 with hr | hr | hr
+  · simp [sgn_of_neg hl, sgn_of_neg hr, mul_pos_of_neg_of_neg hl hr]
+  · subst hr; simp [sgn_of_neg hl, sgn_zero]
+  · simp [sgn_of_neg hl, sgn_of_pos hr, not_lt.mpr (mul_neg_of_neg_of_pos hl hr).le]
+  · subst hl; simp [sgn_zero]
+  · subst hl; simp [sgn_zero]
+  · subst hl; simp [sgn_zero]
+  · simp [sgn_of_pos hl, sgn_of_neg hr, not_lt.mpr (mul_neg_of_pos_of_neg hl hr).le]
+  · subst hr; simp [sgn_of_pos hl, sgn_zero]
+  · simp [sgn_of_pos hl, sgn_of_pos hr, mul_pos hl hr]
+
+theorem sameSignByProduct_eq (dl dr : α) : sameSignByProduct dl dr = sameSign dl dr := by
+  rw [Bool.eq_iff_iff, sameSign_iff]; simp [sameSignByProduct]
 
 theorem interiorAt_eq (dl dr hl hr : α) :
     interiorAt dl dr hl hr = if 0 < dl * dr then whm dl dr hl hr else 0 := by
-  unfold interiorAt safeArg sameSign
-  by_cases h : 0 < dl * dr <;> simp [h]
+  unfold interiorAt safeArg
+  by_cases h : 0 < dl * dr
+  · simp [(sameSign_iff dl dr).mpr h, h]
+  · have : sameSign dl dr = false := by
+      rw [← Bool.not_eq_true]; exact fun hh => h ((sameSign_iff dl dr).mp hh)
+    simp [this, h]
 
 theorem limitEndpoint_eq (d sl sr : α) :
     limitEndpoint d sl sr
